@@ -68,7 +68,7 @@ def url_parts(draw, schemes=("ws", "wss"), allow_userinfo=True):
 
 def build_url(p):
     host = f"[{p['host']}]" if p["hostkind"] == "v6" else p["host"]
-    s = f"{p['scheme']}://"
+    s = f"{p.get('scheme_spelling') or p['scheme']}://"
     if p.get("userinfo"):
         s += p["userinfo"] + "@"
     s += host
